@@ -66,6 +66,12 @@ T = [
  ('C19-r3m4', '/tmp/mut-R3/mutants/4', 'C19', [('demo_test.rs', 'src/tests/sim_tests/macro_sim_tests.rs', M, 'r3m4_')]),
  ('C05-r3m5', '/tmp/mut-R3/mutants/5', 'C05', [('demo_test.rs', 'src/tests/sim_tests/macro_sim_tests.rs', M, 'r3m5_')]),
  ('C03-r3m6', '/tmp/mut-R3/mutants/6', 'C03', [('demo_test.rs', 'parser/src/cfg/sexpr.rs', P, 'r3m6_')]),
+ # ---- C14 (after the property was claimed for its table-completeness half)
+ ('C14-m1', '/tmp/mut-C14/mutants/1', 'C14', [('demo_test.rs', 'src/tests/sim_tests/repeat_sim_tests.rs', M, 'c14_demo_repeat_tap_hold_timeout_action')]),
+ ('C14-m2', '/tmp/mut-C14/mutants/2', 'C14', [('demo_test.rs', 'src/tests/sim_tests/repeat_sim_tests.rs', M, 'c14_demo_repeat_switch_case_after_break_case')]),
+ ('C14-m3', '/tmp/mut-C14/mutants/3', 'C14', [('demo_test.rs', 'src/tests/sim_tests/repeat_sim_tests.rs', M, 'c14_demo_repeat_unshift_on_other_physical_key')]),
+ ('C14-m4', '/tmp/mut-C14/mutants/4', 'C14', [('demo_test.rs', 'src/tests/sim_tests/repeat_sim_tests.rs', M, 'c14_demo_repeat_override_output_of_key_first_seen_as_override_output')]),
+ ('C14-m5', '/tmp/mut-C14/mutants/5', 'C14', [('demo_test.rs', 'src/tests/sim_tests/repeat_sim_tests.rs', M, 'c14_demo_repeat_key_pressed_on_lower_held_layer_shadowed_by_upper')]),
 ]
 ENV = dict(os.environ, CARGO_TARGET_DIR=TGT, CARGO_NET_OFFLINE='true')
 
